@@ -14,9 +14,10 @@ import (
 )
 
 // Sensitivity self-test (thorough tier): one-edit variants of the functions in
-// which this property's obligations live are analysed through
-// packages.Config.Overlay (nothing is written to /repo; nothing is executed).
-// A variant that no longer type-checks is skipped. The result is evidence
+// which this property's obligations live are analysed in process
+// (World.Variant: re-parse, re-type-check the reverse-dependency cone, rebuild
+// SSA; nothing is written to /repo; nothing is executed). A variant that no
+// longer type-checks is skipped. The result is evidence
 // about the checker (which rules are live), never part of the verdict.
 
 type mutant struct {
@@ -138,9 +139,18 @@ func genMutants(w *World, fns []*ssa.Function) []*mutant {
 	return out
 }
 
-func runSelfTest(r *R, repo string, seed int, max int) map[string]interface{} {
+func runSelfTest(r *R, repo, verifDir string, seed int, max int) map[string]interface{} {
 	fns := anchoredFuncs(r)
 	ms := genMutants(r.W, fns)
+	if f := os.Getenv("ARVCHECK_SELFTEST_FILTER"); f != "" {
+		var keep []*mutant
+		for _, m := range ms {
+			if strings.Contains(m.File+":"+m.Func, f) {
+				keep = append(keep, m)
+			}
+		}
+		ms = keep
+	}
 	total := len(ms)
 	rnd := rand.New(rand.NewSource(int64(seed) + 1))
 	rnd.Shuffle(len(ms), func(i, j int) { ms[i], ms[j] = ms[j], ms[i] })
@@ -172,7 +182,7 @@ func runSelfTest(r *R, repo string, seed int, max int) map[string]interface{} {
 			}
 			vr := NewR(vw, r.Prop, "quick")
 			pd.Run(vr)
-			if fail, by := vr.Verdict("/verif"); fail {
+			if fail, by := vr.Verdict(verifDir); fail {
 				m.Res = "flagged"
 				m.By = by
 			} else {
